@@ -34,12 +34,16 @@ def opt_passed(inh, passed, n):
 
 
 SPEC("pane.classes", "PaneBase.__init_subclass__",
+     accepts=["name", "out_format", "in_format", "eq", "order", "frozen", "unsafe_hash", "kw_only", "rename", "in_rename", "out_rename",
+              "allow_extra", "custom"],     # the argument list of docs/using/dataclasses.md (C16: class options accepted at class creation)
+     props=["C16", "C17"],
      shapes={"opts": "rec:PaneOptions", "args": "seq", "kwargs": "map", "getattr(cls, PANE_INFO).opts": "rec:PaneOptions"},
      mutable=["cls"],
      ensures=[
          # every option not passed keeps the inherited value; a passed one overrides (C17)
-         (lambda cls, name, out_format, in_format, eq, order, frozen, kw_only, rename, in_rename, out_rename, allow_extra, custom, final_opts:
-          final_opts.out_format == opt_passed(inherited_opts(cls), out_format, "out_format")
+         (lambda cls, name, out_format, in_format, eq, order, frozen, unsafe_hash, kw_only, rename, in_rename, out_rename, allow_extra, custom, final_opts:
+          final_opts.unsafe_hash == opt_passed(inherited_opts(cls), unsafe_hash, "unsafe_hash")
+          and final_opts.out_format == opt_passed(inherited_opts(cls), out_format, "out_format")
           and final_opts.in_format == opt_passed(inherited_opts(cls), in_format, "in_format")
           and final_opts.eq == opt_passed(inherited_opts(cls), eq, "eq") and final_opts.order == opt_passed(inherited_opts(cls), order, "order")
           and final_opts.frozen == opt_passed(inherited_opts(cls), frozen, "frozen")
